@@ -176,10 +176,10 @@ CLAIMED['C05'] = dict(
     text='Coq theorems about rearrange for EVERY key function (stateful ones such as random_order with any seed included), with or without attributes-first: each '
          'node\'s branches are a permutation with "/" kept first; the re-interpreted graph has the same top, metadata and triple multiset; for pure keys every node\'s '
          'branches are THE unique stable sort by (criterion1, key) (numeric suffixes numerically, :op2 before :op10; inverted roles last for canonical); reconfigure hands '
-         'configure a marker-free graph with the same triples, alignments and (F31) the ORIGINAL top. Content preservation of configure itself is C03/C06\'s theorem.',
+         'configure a marker-free graph with the same triples, alignments and (F31) the ORIGINAL top. Reconfigure and new-top CONTENT are theorems too (Properties/E2E_aln.v: C05x_reconfigure_content for every (stateful) key, C05x_retop_content for every variable).',
     design_ref='DESIGN.md §5 C05',
     note=TB + ' Python sorted is assumed to be a stable sort for the key\'s total preorder (C05_stable_sort_unique shows this determines the list; the oracle re-sorts with its '
-         'own insertion sort); reconfigure/new-top content clauses are covered here by the oracle (27k reconfigures, 4k encode-with-top quick) on deinverting of_free models.',
+         'own insertion sort); the oracle additionally checks 27k reconfigures and 4k encode-with-top per quick run on deinverting of_free models.',
     technique='Coq proof (stable-sort uniqueness, permutation invariance of interpret) + differential correspondence incl. replayed random streams + content/order oracle',
 )
 CLAIMED['C03'] = dict(
@@ -190,7 +190,7 @@ CLAIMED['C03'] = dict(
          'trip is checked by the oracle and a whole-pipeline model/implementation correspondence.',
     design_ref='DESIGN.md §5 C03',
     note=TB + ' the END-TO-END statement is a theorem too (Properties/E2E.v: E2E_C03_decode_encode: encode succeeds and decode of the text is graph_eq to the re-topped graph, numbers compared by text) '
-         'for graphs whose epidata holds only Push/POP markers (alignment markers: T2 is proved under layout_only) with lexable atoms and well-formed metadata; numbers are modelled by text + truthiness; the no-op model is outside the content clause (N9); '
+         'and, in Properties/E2E_aln.v, ALSO for graphs carrying printable alignment markers (E2E_C03x_decode_encode: alignments kept, except that a target alignment on an edge whose target becomes a nested node is dropped, exactly as the code does), with lexable atoms and well-formed metadata; numbers are modelled by text + truthiness; the no-op model is outside the content clause (N9); '
          'quick = every wf connected graph over <= 3 variables x every permutation x every top + random larger ones (0.88M evaluations).',
     technique='Coq proof (termination measure, placed+remaining multiset invariant, completeness of the fallback loop) + bounded-exhaustive differential correspondence + encode/decode oracle',
 )
